@@ -45,7 +45,8 @@ OBLIGATIONS = {
     'C09': ['Shape_size', 'Shape_try_to_axis_shape', 'Shape_to_axis_shape_unchecked', 'Matrix_reshape', 'Matrix_size', 'AxisShape_size', 'Matrix_resize'],
     'C10': ['AxisIndex_from_index', 'AxisIndex_is_out_of_bounds', 'Matrix_major_stride', 'Matrix_minor_stride', 'Matrix_major', 'Matrix_minor',
             'Matrix_swap_major_axis_vectors', 'Matrix_swap_minor_axis_vectors', 'Matrix_swap_rows', 'Matrix_swap_cols'],
-    'C11': ['Matrix_is_multiplication_like_operation_conformable', 'Matrix_ensure_multiplication_like_operation_conformable', 'Matrix_nrows', 'Matrix_ncols', 'AxisShape_nrows', 'AxisShape_ncols'],
+    'C11': ['Matrix_is_multiplication_like_operation_conformable', 'Matrix_ensure_multiplication_like_operation_conformable', 'Matrix_nrows', 'Matrix_ncols', 'AxisShape_nrows', 'AxisShape_ncols',
+            'Matrix_get_nth_major_axis_vector', 'Matrix_multiplication_like_operation', 'Matrix_set_order', 'Matrix_check_size', 'Shape_try_to_axis_shape'],
     'C12': ['Matrix_is_elementwise_operation_conformable', 'Matrix_ensure_elementwise_operation_conformable', 'AxisIndex_swap', 'AxisIndex_from_flattened', 'AxisIndex_to_flattened',
             'Matrix_elementwise_operation', 'Matrix_elementwise_operation_consume_self', 'Matrix_elementwise_operation_assign'],
     'C18': ['Matrix_scalar_operation', 'Matrix_scalar_operation_consume_self', 'Matrix_scalar_operation_assign', 'Matrix_check_size'],
